@@ -7,7 +7,8 @@ Record ccase := {
   cc_partial : bool;
   cc_terms : list terminal;
   cc_threads : list (list (N * N));   (* per thread: calls (method, argument) *)
-  cc_sched : list nat
+  cc_sched : list nat;
+  cc_report : bool                    (* the original is ended by Termination::report() instead of verify() *)
 }.
 
 Definition show_loc (l : loc) : string :=
@@ -39,15 +40,16 @@ Definition run_ccase (k : ccase) : list string :=
     let l1 := map (fun '(tid, l) => ("t" ++ decn tid ++ " " ++ show_loc l)%string) tr in
     let l2 := map (fun '(tid, (cs, th)) => ("T" ++ decn tid ++ " " ++ show_thread_out cs (t_out th))%string)
                   (combine (seq 0 (length ths)) (combine (cc_threads k) ths)) in
-    let l3 := match teardown_panic hinfo cfg_std cfg (g_state g) here new_original 1 with
-              | None => "verify:ok"
-              | Some msg => ("verify:P:" ++ msg)%string
-              end in
+    (* the original is ended on the creator thread after all threads were joined: Layer A's verify() / report() on the final state *)
+    let w := {| w_bc := cfg_std; w_cfg := cfg; w_state := g_state g; w_insts := [new_original]; w_armed := 0 |} in
+    let l3 := ("verify:" ++ snd (step w {| ev_ctx := here; ev_base := if cc_report k then BReport 0 else BVerify 0 |}))%string in
     ("new:ok" :: l1 ++ l2 ++ [l3])%list
   end.
 
 Definition CKase (partial : bool) (ts : list terminal) (ths : list (list (N * N))) (sched : list N) : ccase :=
-  {| cc_partial := partial; cc_terms := ts; cc_threads := ths; cc_sched := map N.to_nat sched |}.
+  {| cc_partial := partial; cc_terms := ts; cc_threads := ths; cc_sched := map N.to_nat sched; cc_report := false |}.
+Definition CKaseR (partial : bool) (ts : list terminal) (ths : list (list (N * N))) (sched : list N) : ccase :=
+  {| cc_partial := partial; cc_terms := ts; cc_threads := ths; cc_sched := map N.to_nat sched; cc_report := true |}.
 
 Definition lines_of_ccase (k : ccase) : list string := map escape (run_ccase k) ++ ["--"].
 Definition lines_of_ccases (ks : list ccase) : list string := flat_map lines_of_ccase ks.
